@@ -51,6 +51,65 @@ def canon_file(f: Any) -> Any:
                   key=lambda x: x[0])
 
 
+def cli_part(ctx: Ctx, cases: list[dict[str, Any]], quick: bool) -> None:
+    """the same update through the real command line: `pv2puml -fp <chunk folder> -jn <name> -om` and then
+    `-im <saved model>` for the next chunk, for job names with and without spaces; the model file of the last run must
+    be the model file of a one-shot run (types, multisets, counts — independent of the walk)"""
+    import shutil
+    r = ctx.rng
+    picked = [c for c in cases if c["kind"] in ("small", "alt_start", "counted") and 2 <= len(c["jobs"]) <= 12]
+    r.shuffle(picked)
+    picked = picked[: (6 if quick else 40)]
+    tmp = tempfile.mkdtemp(prefix="o2p04c_")
+    w = pvlib.Worker(0)
+    try:
+        for k, c in enumerate(picked):
+            name = r.choice(["wf", "Order Flow", "a b c", "x-1"])
+            stem = name.replace(" ", "_")
+            pv = [[{**e, "jobName": name} for e in j] for j in lc.present(ctx, c["jobs"])]
+            cut = r.randrange(1, len(pv))
+            chunks = [pv[:cut], pv[cut:]]
+            base = os.path.join(tmp, f"c{k}")
+
+            def run_cli(tag: str, jobs: list[Any], im: str | None) -> tuple[dict[str, Any], str]:
+                d = os.path.join(base, tag)
+                os.makedirs(os.path.join(d, "in"))
+                os.makedirs(os.path.join(d, "out"))
+                for n, j in enumerate(jobs):
+                    with open(os.path.join(d, "in", f"job{n}.json"), "w") as f:
+                        json.dump(j, f)
+                argv = ["-o", os.path.join(d, "out"), "pv2puml", "-om", "-fp", os.path.join(d, "in"), "-jn", name]
+                if im:
+                    argv += ["-im", im]
+                w.send({"op": "cli", "argv": argv, "timeout": 120})
+                return w.recv(), os.path.join(d, "out", stem + "_model.json")
+            r1, m1 = run_cli("one", pv, None)
+            ra, ma = run_cli("a", chunks[0], None)
+            rb, mb = run_cli("b", chunks[1], ma if os.path.exists(ma) else None)
+            ctx.tick("cli_updates")
+            ctx.tick("cli_name_with_space" if " " in name else "cli_name_plain")
+            inp = {"definition": c["blk"], "jobs_pv": pv, "job_name": name, "cut": cut}
+            if any("error" in x or x.get("exit") for x in (r1, ra, rb)):
+                if not ("error" in r1 or r1.get("exit")):
+                    ctx.violation(f"the command line update fails where the one-shot run succeeds (job name {name!r}): "
+                                  f"{(ra.get('output') or '')[-120:]} {(rb.get('output') or '')[-120:]}",
+                                  {"input": inp}, key=("cli", c["blk"], name))
+                continue
+            if not (os.path.exists(m1) and os.path.exists(mb)):
+                ctx.violation(f"no model file {stem}_model.json was written by -om (job name {name!r})", {"input": inp},
+                              key=("cli", c["blk"], name))
+                continue
+            with open(m1) as f1, open(mb) as f2:
+                one, upd = json.load(f1), json.load(f2)
+            if canon_file(one) != canon_file(upd) or one.get("job_name") != upd.get("job_name"):
+                ctx.violation(f"job name {name!r}: after `-om` on the first chunk and `-im` with the second, the saved "
+                              f"model is not the model of a one-shot run", {"input": inp, "one_shot": one, "updated": upd},
+                              key=("cli", c["blk"], name))
+    finally:
+        w.close()
+        shutil.rmtree(tmp, ignore_errors=True)
+
+
 def run(ctx: Ctx) -> None:
     ctx.prove(["O2P.Props.C04"], THEOREMS)
     if ctx.tier == "thorough":
@@ -97,6 +156,7 @@ def run(ctx: Ctx) -> None:
         cases.append({"kind": "alt_start", "blk": ["seq", [["ev", f"starts {starts} tail {tail}"]]], "jobs": jobs,
                       "classes": []})
         ctx.tick("def_alt_start")
+    cli_part(ctx, cases, quick)
     ctx.cov["rule"] = (
         "job sets (2-40 jobs) of fragment-F definitions and the corpus in a shuffled order; ordered splits into 2 and 3 "
         "chunks (every cut point for sets <= 6 jobs in the thorough tier, a seeded 5 otherwise), every chunk boundary "
